@@ -5,7 +5,7 @@ cd "$(dirname "$0")/.."
 rc=0
 for id in $(python3 -c "import json;print(' '.join(c['property_id'] for c in json.load(open('MANIFEST.json'))['checks']))"); do
   out=$(./check "$id" "$TIER" 2>&1); r=$?
-  echo "$out" | grep -E "^(VIOLATION|KNOWN-FINDING|INCONCLUSIVE|C[0-9]+ )" | cut -c1-220
+  echo "$out" | grep -E "^(VIOLATION|KNOWN-FINDING|INCONCLUSIVE|FUZZ-SUMMARY|VARIANT|NOTE|C[0-9]+ )" | cut -c1-220
   [ $r -ne 0 ] && rc=$r
 done
 exit $rc
